@@ -1,7 +1,8 @@
 (* C11 - Splitting on a marker partitions the track; markers reflect the thresholds. *)
-From Coq Require Import List Arith Bool Lia.
+From Coq Require Import List Arith Bool Lia QArith.
+Close Scope Q_scope.   (* QArith opens it; the statements below are about nat and bool *)
 Import ListNotations.
-From TL Require Import Model.Split Proofs.Split_partition Proofs.Split_markers Proofs.Split_pieces.
+From TL Require Import Model.Split Model.ExtQ Proofs.Split_partition Proofs.Split_markers Proofs.Split_pieces.
 
 (* with at least one marker the pieces, in order, are exactly the track (every observation once, original order);
    with none the result is empty *)
@@ -34,4 +35,13 @@ Example C11_nonvacuous :
   split nat [10;11;12;13;14] [false;true;false;true;false] = [[10;11];[12;13];[14]] /\
   split nat [10;11;12] [false;false;true] = [[10;11;12];[]] /\
   split nat [10;11] [false;false] = [].
+Proof. repeat split; reflexivity. Qed.
+
+(* the marker theorems are generic in the value type: they hold in particular for the extended values the correspondence runs the model on
+   (finite, +inf, -inf; NaN = None): +inf exceeds every finite threshold, -inf none, only NaN is left out of the test *)
+Example C11_infinite_values :
+  marker_and extq extq_leb [Some PInf] [Fin 0%Q] = true /\
+  marker_and extq extq_leb [Some MInf; None] [Fin 0%Q; Fin 0%Q] = false /\
+  marker_or extq extq_leb [Some MInf; Some (Fin 5%Q)] [Fin 0%Q; Fin 0%Q] = false /\
+  marker_or extq extq_leb [None; Some PInf] [Fin 0%Q; Fin 0%Q] = true.
 Proof. repeat split; reflexivity. Qed.
